@@ -42,7 +42,9 @@ def gen(rng, depth, ctx):  # noqa: C901, PLR0911
         return spec.IterT(rng.choice(["List", "VarTuple", "Sequence", "list"]), gen(rng, depth - 1, ctx))
     if r < 0.55:
         ctx.count("shape_dict")
-        key = spec.StrT() if rng.random() < 0.6 else spec.IntT()
+        # keys whose loaded form differs from the input key (date, UUID, enum by value): the trail names the INPUT key (seeded change C05-b)
+        key = rng.choice([spec.StrT, spec.StrT, spec.IntT, lambda: spec.SCALAR_BY_KIND["date"], lambda: spec.SCALAR_BY_KIND["UUID"], lambda: spec.EnumT(spec.EInt),
+                          lambda: spec.EnumT(spec.EStr)])()
         return spec.DictT(rng.choice(["Dict", "Mapping"]), key, gen(rng, depth - 1, ctx))
     if r < 0.68:
         ctx.count("shape_tuple")
